@@ -500,6 +500,17 @@ class Interp(object):
                 if all(isinstance(a, int) for a in args):
                     return list(range(*args))
                 raise Undecided('range of opaque value', e)
+            if f.id == 'enumerate' and args and isinstance(args[0], list):
+                start = args[1] if len(args) > 1 and isinstance(args[1], int) else 0
+                return [[i + start, v] for i, v in enumerate(args[0])]
+            if f.id == 'zip' and args and all(isinstance(a, list) for a in args):
+                return [list(t) for t in zip(*args)]
+            if f.id in ('list', 'tuple') and len(args) == 1 and isinstance(args[0], list):
+                return list(args[0])
+            if f.id == 'reversed' and len(args) == 1 and isinstance(args[0], list):
+                return list(reversed(args[0]))
+            if f.id in ('min', 'max') and args and all(isinstance(a, int) for a in args):
+                return (min if f.id == 'min' else max)(*args)
             if f.id in env:
                 return self.apply(env[f.id], args, e)
             if self.port.func(self.modname, f.id, required=False) is not None:
